@@ -342,7 +342,7 @@ def expand(fn, e, depth: int = 6, keep=(), use=None, allow_calls=False):
             return clone(n)
         if isinstance(n, ast.Name) and isinstance(n.ctx, ast.Load):
             site = n if hasattr(n, "_p") else use
-            if n.id not in keep and depth > 0 and site is not None:
+            if n.id not in keep and depth > 0:
                 d = definition(fn, n.id, site, allow_calls, keep)
                 if d is ENTRY:
                     # a parameter read before any rebinding; when it is rebound later the entry value gets its own symbol
@@ -612,6 +612,28 @@ def origin(fn, e, depth: int = 6):
                     return it.context_expr
         return cur
     return cur
+
+
+def econds(fn, n):
+    """astutil.conds(n) with every guard test first expanded (locals -> definitions): the set of normalised literals known to
+    hold where n executes, e.g. {'not self._closed', 'self._finalize_data'}."""
+    from .astutil import guards
+    out = set()
+
+    def add(t, pos):
+        if isinstance(t, ast.UnaryOp) and isinstance(t.op, ast.Not):
+            add(t.operand, not pos)
+        elif isinstance(t, ast.BoolOp) and isinstance(t.op, ast.And) and pos:
+            for v in t.values:
+                add(v, True)
+        elif isinstance(t, ast.BoolOp) and isinstance(t.op, ast.Or) and not pos:
+            for v in t.values:
+                add(v, False)
+        else:
+            out.add(norm(t) if pos else f"not {norm(t)}")
+    for t, b in guards(n):
+        add(expand(fn, t), b)
+    return out
 
 
 def anon(fn, node) -> str:
